@@ -1,5 +1,6 @@
 import Proofs.Skel
 import HclModel.Gen.ParserSkel
+import HclModel.Gen.DiagSites
 /-!
 # C15 — front ends are total: the peeker's newline-stack assertion cannot fire
 
@@ -27,3 +28,35 @@ example : 0 < Gen.parserSkelSites ∧ "ParseConfig" ∈ Gen.parserSkelNames ∧ 
 example : balanced [.seq .push (.seq (.call 1) (.choice (.seq (.call 0) .ret) (.seq .pop .ret))), .skip] = false := by decide
 
 end HclModel.Skel
+
+/-! ## every diagnostic the library builds has a severity and a summary
+
+`Gen.diagSites` lists every composite literal of type `hcl.Diagnostic` in the non-test source of the library
+packages (root, hclsyntax, json, hclwrite, hcldec, gohcl, hclsimple, hclparse, ext/…), regenerated from the
+Go AST on every check. -/
+namespace HclModel.DiagSites
+
+/-- The regenerated table passes the check. -/
+theorem diag_sites_well_formed : allWellFormed Gen.diagSites = true := by decide +kernel
+
+/-- Every diagnostic literal anywhere in the library names one of the two severities (so `DiagInvalid`, the
+    zero value, cannot come out of it) and sets a summary that is not the empty string literal. -/
+theorem every_diag_literal_has_severity_and_summary (s : Site) (h : s ∈ Gen.diagSites) :
+    (s.sev = 1 ∨ s.sev = 2) ∧ (s.summary = 1 ∨ s.summary = 3) :=
+  (allWellFormed_iff Gen.diagSites).mp diag_sites_well_formed s h
+
+/-- Every diagnostic literal of the two parsing front ends (hclsyntax, json) sets a subject range, except in
+    `json/public.go`, whose three sites report that a file could not be opened or read (there is no input to
+    point into). -/
+theorem front_end_diags_have_subject :
+    (noSubject Gen.diagSites).all (fun p => p.1 == "json/public.go") = true := by decide +kernel
+
+/-- non-vacuity: the table is not empty and covers both front ends -/
+example : 200 < Gen.diagSiteCount ∧ Gen.diagSites.length = Gen.diagSiteCount ∧
+    (Gen.diagSites.filter (·.pkg == 1)).length > 100 ∧ (Gen.diagSites.filter (·.pkg == 2)).length > 20 := by decide +kernel
+
+/-- the check is not trivially true -/
+example : allWellFormed [⟨"x.go", 1, 10, 0, 1, true, true, false⟩] = false := by decide
+example : allWellFormed [⟨"x.go", 1, 10, 1, 2, true, true, false⟩] = false := by decide
+
+end HclModel.DiagSites
